@@ -28,7 +28,7 @@ fn exec(w: &mut Worker, step: &str) -> String {
     match t.as_slice() {
         ["INIT", h] => { provider::initialize_from_msgpack_bytes(unhex(h)); w.reads.clear();
             let (_, base, cap, _) = provider::log::verif_log_view(); let mut b = LOG_BUFS.lock().unwrap(); if !b.contains(&(base, cap)) { b.push((base, cap)); } "UNIT".into() }
-        ["R", rest @ ..] => { let op = c01::parse_op(&rest.join(" ")).unwrap(); let mut s = c01::Session { answers: std::mem::take(&mut w.reads) }; let o = s.exec(&op); w.reads = s.answers; o }
+        ["R", rest @ ..] => { let op = c01::parse_op(&rest.join(" ")).unwrap(); let mut s = c01::Session { answers: std::mem::take(&mut w.reads), ids: Default::default() }; let o = s.exec(&op); w.reads = s.answers; o }
         ["RIPROP", sc, id] => {
             let v = match (*sc, sc.parse::<usize>()) { ("g", _) => c01::garbage_val(), (_, Ok(k)) => match w.reads.get(k) { Some(c01::Obs::Val(v, _)) => *v, _ => c01::garbage_val() }, _ => c01::garbage_val() };
             let r = provider::read::shopify_function_input_get_interned_obj_prop(v, id.parse().unwrap());
